@@ -172,9 +172,11 @@ pub fn into_tokens(c: char, it: &mut Peekable<Chars>, state: &mut State) -> LexR
             let mut build_cur_expr = 0;
             let mut cur_offset = CaretPos::start();
             let mut cur_expr = String::new();
+            let mut terminated = false;
 
             for c in it {
                 if !back_slash && build_cur_expr == 0 && c == '"' {
+                    terminated = true;
                     break;
                 }
                 string.push(c);
@@ -204,6 +206,11 @@ pub fn into_tokens(c: char, it: &mut Peekable<Chars>, state: &mut State) -> LexR
                 }
 
                 back_slash = c == '\\';
+            }
+
+            if !terminated {
+                let msg = "string literal is not terminated";
+                return Err(LexErr::new(state.pos, None, msg));
             }
 
             if string.starts_with("\"\"") && string.ends_with("\"\"") {
